@@ -102,7 +102,7 @@ def kids_of(t):
 # Custom hyper primitives the harness instantiates: (class name, well-behaved?, genomes of its own range).
 # Mirrors: the Python classes in `_setup_pg`, `hookDec` / `hookEnc` in lean/Driver/C13.lean.
 HOOKS = [
-    ('C13StrId', True, ['', 'a', 'ab', 'b c']),            # value = genome
+    ('C13StrId', True, ['', 'a', 'ab', 'b c', ' pad ']),            # value = genome
     ('C13IntSeq', True, ['', '1', '1,2', '12,-3,4']),      # '1,2' <-> [1, 2]
     ('Evolvable', True, ['{"x": 1, "y": [1, 2]}', '{"x": 2, "y": [1, 2]}', '{"x": 1, "y": [1, 2, 3]}']),
     ('C13BadEnc', False, ['a', 'b']),                      # custom_encode appends '!'
@@ -523,6 +523,19 @@ def in_hook_range_prim(p, W, d):
     if not in_hook_range(prims(cands[sd[0][1]], W), W, norm(None, sd[1])):
       return False
   return True
+
+
+def first_diff(a, b):
+  """The values at the first node (pre-order) where two DNAs differ, or None."""
+  if a[0] != b[0]:
+    return a[0], b[0]
+  for x, y in zip(a[1], b[1]):
+    d = first_diff(x, y)
+    if d:
+      return d
+  if len(a[1]) != len(b[1]):
+    return ('children', len(a[1])), ('children', len(b[1]))
+  return None
 
 
 def placeholders_left(v, W):
@@ -1137,6 +1150,12 @@ class C13(Prop):
       ds += [mutate_dna(d, rng) for d in ds[:3]]
       case['dnas'] = ds
       case['bad_dnas'] = []
+    # dynamic evaluation: the flat placeholders of the template, requested one after the other by a function
+    flat = [q for q in prims(t, None) if q[0] != 'custom' and (q[0] == 'floatv' or not any(all_tags(c) for c in q[4]))]
+    if flat:
+      tl = ['list', flat]
+      case['trace'] = flat
+      case['trace_dna'] = rand_space_dna(prims(tl, W), W, rng)
     vals = [rand_value(t, W, rng, False) for _ in range(2)]
     vals += [rand_value(t, W, rng, True) for _ in range(3)]
     case['values'] = vals
@@ -1152,6 +1171,9 @@ class C13(Prop):
     dnas = case['dnas']
     req = {'tmpl': case['tmpl'], 'where': case['where'], 'values': case.get('values', []),
            'stage2_limit': STAGE2_LIMIT, 'slots': bound_slots(case['tmpl'])}
+    if case.get('trace'):
+      req['trace'] = case['trace']
+      req['trace_dna'] = case['trace_dna']
     if dnas == 'all':
       req['dnas'] = 'all'
       req['bad_dnas'] = case.get('bad_dnas', [])
@@ -1261,8 +1283,10 @@ class C13(Prop):
       rec = {}
       try:
         v = to_pg(vj)
-      except (TypeError, ValueError, KeyError) as e:
-        model['values'].append(None)      # value itself not constructible (typed object): skipped
+        if of_pg(v) != vj:
+          raise ValueError('coerced by a typed field')
+      except (TypeError, ValueError, KeyError, Unrepresentable) as e:
+        model['values'].append(None)      # value not constructible as described (typed object): skipped
         continue
       try:
         d = t.encode(v)
@@ -1303,7 +1327,43 @@ class C13(Prop):
         _no_timeout()
         obs['iter_error'] = err_name(e)
     obs['n_all'] = n_all
+    if case.get('trace'):
+      self._trace_equal = None
+      model['trace'] = self.trace(case, where)
+      obs['trace_equal'] = self._trace_equal
     return {'construct': 'ok', 'model': model, 'obs': obs}
+
+  def trace(self, case, where):
+    """pg.hyper.trace / DynamicEvaluationContext: a function requesting the flat placeholders in order."""
+    pg = _setup_pg()['pg']
+
+    def fn():
+      return [to_pg(q) for q in case['trace']]
+    out = {}
+    try:
+      ctx = pg.hyper.trace(fn, where=where)
+      out['spec'] = spec_of_pg(ctx.dna_spec)
+      # the same decisions through the template API
+      tt = pg.template(pg.List([to_pg(q) for q in case['trace']]), where)
+      try:
+        want = of_pg(tt.decode(dna_to_pg(case['trace_dna'])))
+      except Exception:          # pylint: disable=broad-except
+        _no_timeout()
+        want = None
+      try:
+        with ctx.apply(dna_to_pg(case['trace_dna'])):
+          res = fn()
+        out['dec'] = ['ok', ['list', [of_pg(x) for x in res]]]
+        got = out['dec'][1]
+      except Exception:          # pylint: disable=broad-except
+        _no_timeout()
+        out['dec'] = ['err']
+        got = None
+      self._trace_equal = spec_of_pg(tt.dna_spec()) == out['spec'] and got == want
+    except Exception as e:       # pylint: disable=broad-except
+      _no_timeout()
+      out = {'error': err_name(e)}
+    return out
 
   def hook_sweep_ok(self, cid):
     """first_dna / next_dna / random_dna of the custom hyper stay within its own genomes, and through the
@@ -1381,12 +1441,22 @@ class C13(Prop):
         return '%s: impl=%s model=%s' % (key, json.dumps(a[key])[:300], json.dumps(b[key])[:300])
     if len(a['dnas']) != len(b['dnas']):
       return 'number of DNAs: impl=%d model=%d' % (len(a['dnas']), len(b['dnas']))
+    # A hook whose custom_encode raises something else than ValueError / KeyError (here: NotImplementedError of
+    # a CustomHyper without custom_encode) aborts the whole `encode` instead of counting as "no match"; the
+    # model knows only "the hook cannot encode". Such hooks violate the contract: `enc` is not compared.
+    aborting = any('encode-raises' in kinds for kinds in (impl_out['obs'].get('hook_violations') or {}).values())
     for i, (x, y) in enumerate(zip(a['dnas'], b['dnas'])):
+      if aborting:
+        x, y = dict(x, enc=None), dict(y, enc=None)
       if x != y:
         return 'dna #%d: impl=%s model=%s' % (i, json.dumps(x)[:400], json.dumps(y)[:400])
     for i, (x, y) in enumerate(zip(a['values'], b['values'])):
+      if aborting:
+        continue
       if x is not None and x != y:
         return 'value #%d: impl=%s model=%s' % (i, json.dumps(x)[:400], json.dumps(y)[:400])
+    if 'trace' in a and a['trace'] != b.get('trace'):
+      return 'pg.hyper.trace: impl=%s model=%s' % (json.dumps(a['trace'])[:400], json.dumps(b.get('trace'))[:400])
     obs = impl_out['obs']
     if 'iter' in obs:
       n = obs['n_all']
@@ -1448,6 +1518,13 @@ class C13(Prop):
       if not o['materialize_equal']:
         return {'signature': 'materialize-differs', 'what': 'pg.materialize differs from decode for %s (%s)'
                 % (d, o.get('materialize_error'))}
+      if rec['enc'] and rec['enc'][0] == 'ok' and rec['enc'][1] != rec['dna'] and rec['strict']:
+        # first-match rule: wherever the re-encoded DNA first differs, it names an *earlier* candidate
+        fd = first_diff(rec['dna'], rec['enc'][1])
+        if not (fd and fd[0] and fd[1] and fd[0][0] == 'i' and fd[1][0] == 'i' and fd[1][1] < fd[0][1]):
+          return {'signature': 'first-match-rule',
+                  'what': 'encode(decode(%s)) = %s: the first difference %s is not an earlier candidate index'
+                  % (d, json.dumps(rec['enc'][1])[:200], json.dumps(fd))}
       if distinct and not (rec['enc'] and rec['enc'][0] == 'ok' and rec['enc'][1] == rec['dna'] and o['roundtrip']):
         sig = 'encode-decode-not-identity'
         if W is not None:
@@ -1456,6 +1533,11 @@ class C13(Prop):
           sig = 'stray-dna-value-lost'      # F85: validate / decode ignore the value, encode cannot reproduce it
         return {'signature': sig,
                 'what': 'encode(decode(%s)) = %s (%s)' % (d, json.dumps(rec['enc'])[:200], o.get('enc_error'))}
+    if obs.get('trace_equal') is False:
+      return {'signature': 'trace-differs-from-template',
+              'what': 'pg.hyper.trace(fn, where) / ctx.apply(dna) over the placeholders %s does not give the dna_spec '
+                      '/ values of pg.template([...], where) for DNA %s' % (json.dumps(case['trace'])[:200],
+                                                                          json.dumps(case['trace_dna'])[:120])}
     if 'iter_error' in obs:
       return {'signature': 'iter-raises', 'what': 'pg.iter raised %s' % obs['iter_error']}
     if 'iter_count' in obs:
@@ -1490,6 +1572,8 @@ class C13(Prop):
     h.append('prims:%s' % min(m['count'], 5))
     h.append('size:' + ('inf' if m['size'] is None else '1' if m['size'] == 1 else '<=10' if m['size'] <= 10
                         else '<=100' if m['size'] <= 100 else '>100'))
+    if 'trace' in m:
+      h.append('dynamic-evaluation-traced')
     if any(r.get('stage2') and r['stage2']['decs'] for r in m['dnas']):
       h.append('two-stage-decoded')
     if any(r.get('stage2') and r['stage2']['spec'] != ['space', []] for r in m['dnas']):
